@@ -55,6 +55,10 @@ type Reply struct {
 	// ErrAtPrepare: a scripted statement whose Err is set is refused already at COM_STMT_PREPARE (where a real server reports
 	// syntax errors) instead of at execution.
 	ErrAtPrepare bool
+	// Metadata overrides, for this result set of a COM_STMT_EXECUTE, the server's MARIADB_CLIENT_CACHE_METADATA policy
+	// (metahist.go): 0 = the policy of the greeting decides, MetadataSend / MetadataSkip = column definitions are sent / left
+	// out. Without the negotiated capability definitions are always sent.
+	Metadata int8
 }
 
 // Script produces the canned answer of a statement; binary tells whether the binary protocol (COM_STMT_EXECUTE) is used.
@@ -456,6 +460,7 @@ func (c *conn) sendReply(rep *Reply, binaryProto bool) {
 	case rep.Err != nil:
 		c.sendErr(rep.Err.Code, rep.Err.State, rep.Err.Msg)
 	case rep.Cols != nil:
+		c.replyMetadata(rep, binaryProto)
 		c.sendResultSet(rep.Cols, rep.Rows, binaryProto, rep.Status, rep.Warnings)
 	default:
 		st := rep.Status
